@@ -730,6 +730,17 @@ def fuse(
 
     assert primitive_op1.num_tasks == primitive_op2.num_tasks
 
+    first_key = next(iter(primitive_op2.pipeline.mappable), None)
+    if first_key is not None:
+        out_name = next(iter(primitive_op2.pipeline.config.writes_map), None)
+        in_arg = primitive_op2.pipeline.config.back_key_function(
+            ChunkKey(out_name, tuple(first_key))
+        ).args[0]
+        if not isinstance(in_arg, ChunkKey):
+            # the second operation reads a list or stream of blocks (e.g. a reduction round):
+            # use the general fusion, which preserves that structure
+            return fuse_multiple(primitive_op2, primitive_op1)
+
     pipeline1 = primitive_op1.pipeline
     pipeline2 = primitive_op2.pipeline
 
